@@ -38,6 +38,16 @@ enum("C14", "Exhaustive bounded enumeration: every map with <=3 (4) entries over
 enum("C15", "Exhaustive bounded enumeration: every string of <=4 (5) runes over an alphabet mixing ASCII, a 2-byte rune and token characters x every byte offset/length/index/size in a window of +-3 around the length x every pad/wrap token of length <=2; Unicode case mapping on runes with non-trivial mappings; case styles on every 1-3 word string over 7 words x separator runs. Oracles: PHP byte rules for Substr, concatenation/length/position identities, Unwrap(Wrap)=id, rune-wise unicode mapping, letter conservation/idempotence for the case styles.", "DESIGN.md §3 C15")
 enum("C16", "Exhaustive bounded enumeration of aliasing: each of ~60 slice helpers x every slice up to length 4 (5) over 3 values placed in a backing array with sentinels before it and spare capacity {0,1,4} with sentinels after it — the whole backing array is compared before/after; every ORDERED PAIR of helpers on one shared argument (earlier result snapshot vs after the later call, with the principled exemption for results that are views by contract); the same for ~24 map helpers over every map with <=3 entries.", "DESIGN.md §3 C16")
 
+CONC_NOTE = ("Trusted: Go compiler/runtime and race detector; vinstr's rewriting preserves sequential semantics (same tree in pass-through mode runs the sequential checks); "
+             "vsync/vtime/Chan model the blocking semantics of their originals (RWMutex with writer preference, FIFO Cond, Go channel/select/timer rules). "
+             "Scope: the closed programs listed in the evidence, at synchronisation-operation granularity (complete for race-free code, which C01 establishes); real-time behaviour of the Go timer heap and weak-memory effects of racy code are outside.")
+def conc(pid, text, technique, ref):
+    checks[pid] = dict(engine="vrt+explore", text=text, technique=technique, ref=ref, note=CONC_NOTE)
+conc("C01", "Stateless model checking of the real containers recompiled (go build -overlay, no edits in /repo) against a controlled cooperative scheduler, in a -race build: for every unordered pair of public methods of Heap, BsTree, Trie, Queue, LQueue, Stack, LStack and Cache (incl. data handed back: GetValues, List, Keys...), 3 initial contents and colliding arguments, EVERY interleaving at synchronisation-operation granularity is executed; each execution is judged by ThreadSanitizer's vector clocks (the scheduler's hand-offs are hidden with runtime.RaceDisable and the real sync primitive runs behind every shim, so exactly the program's own happens-before is seen), by recovered panics, by deadlock detection (no enabled thread) and by a usability probe after a visible join. Cache pairs are also run with the janitor goroutine and a clock thread at preemption bound 2 (3 thorough).",
+     "stateless DFS over all interleavings under a controlled scheduler + TSan happens-before on each explored execution", "DESIGN.md §3 C01, §2.2-2.4")
+conc("C02", "Stateless model checking for linearizability: every program of 2 threads x 1 call, 3 threads x 1 call and 2 threads x (2,1) calls (thorough: also 2 x 2) over each type's single-element alphabet and 3 initial contents, EVERY interleaving of their lock/unlock/clock operations under the controlled scheduler (unbounded; iterative preemption bounding only if a budget is hit, reported); each execution's outcome (every return value + final Size/contents) must equal the outcome of some one-at-a-time run of the same calls on the same implementation that respects program order and the observed real-time order (brute force over <=24 orders).",
+     "stateless DFS over all interleavings under a controlled scheduler + brute-force linearizability against sequential runs", "DESIGN.md §3 C02, §2.2-2.3")
+
 not_built = {}  # property -> reason (kept current while the framework is being built)
 props = [json.loads(l)["id"] for l in open(os.path.join(ROOT, "properties.jsonl"))]
 for p in props:
@@ -59,6 +69,8 @@ m = {
          "kind_free_text": "explicit-state breadth-first model checker; transition function is the real method call (successor = replay on a fresh instance + 1 op); state key = canonical reflection dump of the object's private heap graph paired with the reference model"},
         {"name": "enum", "path": "enum/ props/pure/", "serves_properties": [p for p in props if p in checks and checks[p]["engine"] == "enum"],
          "kind_free_text": "exhaustive small-scope enumeration of argument tuples against reference definitions; internal nondeterminism of the helpers (map iteration order, math/rand) is turned into enumerated choice points by source rewriting (vinstr overlay)"},
+        {"name": "vrt+explore", "path": "vrt/ cmd/vinstr/ props/conc/", "serves_properties": [p for p in props if p in checks and checks[p]["engine"] == "vrt+explore"],
+         "kind_free_text": "controlled runtime (cooperative scheduler, model sync/channel/timer primitives, virtual clock) into which gogu is recompiled by a type-aware source rewriter through go build -overlay; stateless depth-first explorer over choice sequences with iterative preemption bounding; -race flavour for C01"},
     ],
     "checks": [],
     "notes": "All checks: ./run.sh <ID> <tier>; exit 0 held / 1 VIOLATION / 2 machinery failure. Known findings: known-findings.jsonl. Replays: ./run.sh replay <file>.",
